@@ -148,12 +148,12 @@ Qed.
 (* ------------------------------------------------------------------------------------------------ *)
 (* regression of fix D89 (was refuted_depth2: AttributeError for any input at hierarchy depth >= 2) *)
 Lemma depth2_after_D89 :
-  outcome_eqb (run_inputs Euler true 2 (mkq 1 1) (mkq 1 4) (mkq 0 1) [[mkq 0 1]] [(A1 [mkq 1 1; mkq 2 1; mkq 4 1; mkq 8 1], [0])] [mkq 1 2])
+  outcome_eqb (run_inputs Euler true 2 (mkq 1 1) (mkq 1 4) None (mkq 0 1) (mkq 0 1) [[mkq 0 1]] [(A1 [mkq 1 1; mkq 2 1; mkq 4 1; mkq 8 1], [0])] [mkq 1 2])
               (Rows [[mkq 0 1; mkq 1 2]; [mkq 1 4; mkq 3 4]; [mkq 1 2; mkq 5 4]; [mkq 3 4; mkq 9 4]]) = true.
 Proof. vm_compute. reflexivity. Qed.
 
-Theorem run_inputs_depth_irrelevant s vectorize depth T dt udef W inputs x0 :
-  run_inputs s vectorize depth T dt udef W inputs x0 = run_inputs s vectorize 0 T dt udef W inputs x0.
+Theorem run_inputs_depth_irrelevant s vectorize depth T dt dts cutoff udef W inputs x0 :
+  run_inputs s vectorize depth T dt dts cutoff udef W inputs x0 = run_inputs s vectorize 0 T dt dts cutoff udef W inputs x0.
 Proof. reflexivity. Qed.
 
 (* ------------------------------------------------------------------------------------------------ *)
@@ -345,11 +345,12 @@ Proof.
 Qed.
 
 (* C08, whole runs: any network of integrators with edges, any inputs in an accepted form, any number of steps *)
-Theorem run_inputs_full s vectorize depth T dt udef W inputs x0 :
-  inputs_guard vectorize T dt inputs = true -> rows_fit T dt dt = true -> frame_ok T dt = true ->
-  run_inputs s vectorize depth T dt udef W inputs x0 = Rows (spec_run_inputs s T dt udef W inputs x0).
+Theorem run_inputs_full s vectorize depth T dt dts cutoff udef W inputs x0 :
+  let d := match dts with Some d => d | None => dt end in
+  inputs_guard vectorize T dt inputs = true -> rows_fit T dt d = true -> frame_ok T d = true ->
+  run_inputs s vectorize depth T dt dts cutoff udef W inputs x0 = Rows (spec_run_inputs s T dt dts cutoff udef W inputs x0).
 Proof.
-  intros Hall Hfit Hok. unfold inputs_guard in Hall.
+  intros d Hall Hfit Hok. unfold inputs_guard in Hall.
   unfold run_inputs.
   assert (E2 : forallb (accepted vectorize) inputs = true).
   { rewrite forallb_forall in *. intros inp Hin. specialize (Hall inp Hin). unfold input_ok in Hall.
@@ -360,11 +361,11 @@ Proof.
     rewrite forallb_forall in Hall. specialize (Hall inp Hin). unfold input_ok in Hall.
     apply andb_prop in Hall as [Hall _]. apply andb_prop in Hall as [Hall _]. apply andb_prop in Hall as [_ Hall]. lia. }
   rewrite E3.
-  pose proof (run_partial unit (net_rhs udef W inputs) s T dt None 0%Qc (seq 0 (length x0)) x0 tt) as HR. cbn zeta in HR.
-  rewrite HR by assumption. f_equal.
-  unfold spec_run_inputs, spec_run. apply map_ext_in. intros k Hk. apply filter_In in Hk as [Hk _]. apply in_seq in Hk.
+  pose proof (run_partial unit (net_rhs udef W inputs) s T dt dts cutoff (seq 0 (length x0)) x0 tt) as HR. cbn zeta in HR.
+  fold d in HR. rewrite HR by assumption. f_equal.
+  unfold spec_run_inputs, spec_run. fold d. apply map_ext_in. intros k Hk. apply filter_In in Hk as [Hk _]. apply in_seq in Hk.
   apply rows_fit_true in Hfit as [Hss Hc].
-  assert (Hlt : k * rnd (dt / dt) < rnd (T / dt)) by (apply cdiv_mul_lt; [exact Hss|rewrite Hc; lia]).
+  assert (Hlt : k * rnd (d / dt) < rnd (T / dt)) by (apply cdiv_mul_lt; [exact Hss|rewrite Hc; lia]).
   f_equal. f_equal. f_equal.
   apply (traj_ext _ _ 0 (rnd (T / dt))); [|lia].
   intros t Ht c y. apply step_of_ext. intros c' y'. replace (t + 0) with t by lia.
